@@ -39,8 +39,11 @@ def _writeTracebackMessage(logger, typ, exception, traceback):
 
     @param traceback: The traceback, a C{str}.
     """
-    msg = TRACEBACK_MESSAGE(reason=exception, traceback=traceback, exception=typ)
-    msg = msg.bind(**_error_extraction.get_fields_for_exception(logger, exception))
+    fields = _error_extraction.get_fields_for_exception(logger, exception)
+    msg = TRACEBACK_MESSAGE(**fields)
+    # The traceback's own fields win over extracted fields of the same name,
+    # as they do in a failed action's end message:
+    msg = msg.bind(reason=exception, traceback=traceback, exception=typ)
     msg.write(logger)
 
 
